@@ -280,6 +280,24 @@ let res_out (r : res) : string =
   | RKids e -> Printf.sprintf "[%s]" (edges_out e)
   | RKeys k -> Printf.sprintf "[%s]" (String.concat "," (List.map (fun v -> string_of_int (int_of_nat v)) k))
 
+(* Representation change only: the reference state keeps its maps as nested
+   closures (one layer per call, and the collecting branch of data() calls the
+   previous layer several times, which is exponential in the number of
+   collections).  After every call the maps are tabulated over the ids below
+   s_bound; ids at or above it have never been written inside the limits
+   (bounded_run in History.v) and keep the values of sinit. *)
+let compact (s : spec) : spec =
+  let b = int_of_nat s.s_bound in
+  let ids = Array.init b nat_of_int in
+  let pres = Array.map s.s_present ids in
+  let grp = Array.map s.s_grp ids in
+  let unr = Array.map s.s_unread ids in
+  let edg = Array.map s.s_edges ids in
+  let dat = Array.map s.s_data ids in
+  let look a d w = let i = int_of_nat w in if i < b then a.(i) else d in
+  { s with s_present = look pres false; s_grp = look grp None; s_unread = look unr false;
+           s_edges = look edg []; s_data = look dat None }
+
 let spec_history (n : int) (lines : string list) : unit =
   let ss : (string, spec * nat) Hashtbl.t = Hashtbl.create 8 in
   let n_edges = nat_of_int n in
@@ -298,6 +316,7 @@ let spec_history (n : int) (lines : string list) : unit =
                 Printf.printf "%s -> ? | pre=0\n" opname
               end else begin
                 let s1, r = sstep s o in
+                let s1 = compact s1 in
                 Hashtbl.replace ss h (s1, cap);
                 Printf.printf "%s -> %s | pre=1 keys=[%s]\n" opname (res_out r)
                   (String.concat "," (List.map (fun v -> string_of_int (int_of_nat v)) (s_keys s1)))
